@@ -226,11 +226,64 @@ func runGCPropagates(p *Program, r *RuleResult) {
 	}
 	pr := p.Named(processPkg, "Process")
 	spawn := p.Method(pr, "SpawnThenTransition")
+	// helpers that make such a process from their own parameters and spawn it on every path
+	// (create + spawn extracted into one function): a call of one counts as maker + spawn
+	spawningMakers := map[*ssa.Function]bool{}
+	for _, fn := range p.SrcFuncs {
+		if makers[fn] || fn.Parent() != nil {
+			continue
+		}
+		view := p.View(fn)
+		for _, c := range p.callsIn(fn) {
+			call, ok := c.(*ssa.Call)
+			if !ok || !makers[call.Common().StaticCallee()] {
+				continue
+			}
+			fromParams := true
+			for _, a := range call.Common().Args {
+				isP := false
+				for _, prm := range fn.Params {
+					if a == ssa.Value(prm) {
+						isP = true
+					}
+				}
+				if !isP {
+					fromParams = false
+				}
+			}
+			if !fromParams {
+				continue
+			}
+			var sp ssa.Instruction
+			for _, u := range *call.Referrers() {
+				if s, ok := u.(*ssa.Call); ok && s.Common().StaticCallee() == spawn {
+					sp = s
+				}
+			}
+			if sp == nil {
+				continue
+			}
+			always := true
+			for _, b := range view.Blocks() {
+				ins := view.Instrs(b)
+				if ret, ok := ins[len(ins)-1].(*ssa.Return); ok && !view.passedBefore(ret, func(in ssa.Instruction) bool { return in == sp }) {
+					always = false
+				}
+			}
+			if always {
+				spawningMakers[fn] = true
+			}
+		}
+	}
 	// spawnsDropFor: instruction pair (maker call, spawn of its result)
 	spawnOfMaker := func(fn *ssa.Function) []*ssa.Call {
 		var out []*ssa.Call
 		for _, c := range p.callsIn(fn) {
 			call, ok := c.(*ssa.Call)
+			if ok && spawningMakers[call.Common().StaticCallee()] {
+				out = append(out, call)
+				continue
+			}
 			if !ok || !makers[call.Common().StaticCallee()] {
 				continue
 			}
